@@ -167,8 +167,16 @@ class Engine(ExprMixin, StmtMixin, CallMixin):
     # ------------------------------------------------------------------ attribute access on pseudo values
     def getattr_(self, o, name, st):
         if isinstance(o, tuple) and o and o[0] == "typeof":
-            v = ops.strip_opt(o[1])
+            v = self.unopt(st, o[1])
+            if isinstance(v, Opt):
+                raise Unsupported("type(x).__name__ of a possibly-None value")
             if name == "__name__":
+                if v is None:
+                    return [("val", "NoneType", st)]
+                if isinstance(v, (bool, int, float, str)):
+                    return [("val", type(v).__name__, st)]
+                if isinstance(v, Sym) and v.kind in ("int", "bool", "str"):
+                    return [("val", v.kind, st)]
                 if isinstance(v, Ref):
                     if isinstance(v.cls, ClassInfo):
                         return [("val", v.cls.name, st)]
